@@ -6,6 +6,7 @@ import itertools
 
 from simkit import programs, seams
 from simkit.engine import Engine, LISTENER_EVENTS
+from simkit.loop import TickLimit
 from simkit.runner import Result
 
 COMPONENTS = {
@@ -45,7 +46,14 @@ def dry_run(program, opts=None):
     try:
         if not engine.start():
             return 0, {}, {'constructed': False}
-        done = engine.drive_out()
+        try:
+            done = engine.drive_out()
+        except TickLimit:
+            # the program does not come to rest even without requests: still generate a case around it (the check itself
+            # decides what that means for its property)
+            return 40, dict(engine.notify_counts), {'constructed': True, 'terminated': False, 'runaway': True,
+                                                    'state': engine.proc.state.value, 'ticks': 40,
+                                                    'notify': dict(engine.notify_counts), 'time': engine.loop.time()}
         info = {
             'constructed': True,
             'terminated': done == 'terminated',
@@ -117,7 +125,7 @@ def systematic_schedules(kinds, positions, max_len):
 def _reindex_after_removal(steps, removed, redirect):
     for step in steps:
         ret = step['ret']
-        if 'to' in ret:
+        if ret.get('to') is not None:
             if ret['to'] == removed:
                 ret['to'] = redirect
             if ret['to'] > removed:
@@ -128,7 +136,7 @@ def shrink_program(program):
     steps = program['steps']
     # remove a pass-through step
     for j, step in enumerate(steps):
-        if j == 0 or 'to' not in step['ret']:
+        if j == 0 or step['ret'].get('to') is None:
             continue
         candidate = copy.deepcopy(program)
         target = step['ret']['to']
@@ -138,7 +146,7 @@ def shrink_program(program):
     # drop unreachable tail
     reachable = {0}
     for j, step in enumerate(steps):
-        if j in reachable and 'to' in step['ret']:
+        if j in reachable and step['ret'].get('to') is not None:
             reachable.add(step['ret']['to'])
     if len(reachable) < len(steps):
         last = max(reachable)
@@ -148,7 +156,7 @@ def shrink_program(program):
             yield candidate
     for j, step in enumerate(steps):
         # make a step terminal
-        if 'to' in step['ret']:
+        if step['ret'].get('to') is not None:
             candidate = copy.deepcopy(program)
             candidate['steps'][j]['ret'] = {'t': 'value', 'v': 0}
             yield candidate
